@@ -27,6 +27,15 @@ import (
 	"tunnox-core/internal/protocol/session/crossnode"
 )
 
+func forwardGuarded(out *caseOut, cfg *session.BidirectionalForwardConfig) {
+	defer func() {
+		if p := recover(); p != nil {
+			out.fail("forwarder-panic", "runBidirectionalForward panicked: %v", p)
+		}
+	}()
+	session.VerifRunBidirectionalForward(cfg)
+}
+
 // ---------------------------------------------------------------------------------------------
 // gated doubles
 // ---------------------------------------------------------------------------------------------
@@ -51,6 +60,7 @@ func (g *gate) step() { <-g.arrive; g.grant <- struct{}{}; <-g.done }
 type gatedEnd struct {
 	rg, wg *gate
 	eofl   bool // the last chunk is returned TOGETHER with io.EOF (legal io.Reader behaviour)
+	closed int32 // Close() was called on this end: like a real connection, later Reads and Writes fail
 	mu     sync.Mutex
 	src    [][]byte
 	sink   bytes.Buffer
@@ -60,6 +70,9 @@ type gatedEnd struct {
 func (e *gatedEnd) Read(p []byte) (int, error) {
 	e.rg.enter()
 	defer e.rg.leave()
+	if atomic.LoadInt32(&e.closed) != 0 {
+		return 0, io.ErrClosedPipe
+	}
 	if len(e.src) == 0 {
 		return 0, io.EOF
 	}
@@ -78,6 +91,9 @@ func (e *gatedEnd) Read(p []byte) (int, error) {
 func (e *gatedEnd) Write(p []byte) (int, error) {
 	e.wg.enter()
 	defer e.wg.leave()
+	if atomic.LoadInt32(&e.closed) != 0 {
+		return 0, io.ErrClosedPipe
+	}
 	e.mu.Lock()
 	defer e.mu.Unlock()
 	return e.sink.Write(p)
@@ -103,9 +119,20 @@ func (r *gatedRemote) CloseWrite() error {
 }
 func (r *gatedRemote) Close() error      { r.note("close"); return nil }
 
-type gatedLocal struct{ gatedEnd }
+// the three method sets a LocalConn can show the forwarder
+type gatedLocalRW struct{ *gatedEnd }  // Read / Write only
+type gatedLocalRWC struct{ *gatedEnd } // + Close
+type gatedLocalCW struct{ *gatedEnd }  // + Close + CloseWrite
 
-func (l *gatedLocal) Close() error { l.note("close"); return nil }
+func (e *gatedEnd) doClose() error { e.note("close"); atomic.StoreInt32(&e.closed, 1); return nil }
+
+func (l gatedLocalRWC) Close() error     { return l.doClose() }
+func (l gatedLocalCW) Close() error      { return l.doClose() }
+func (l gatedLocalCW) CloseWrite() error { l.note("closewrite"); return nil }
+
+type endCloser struct{ e *gatedEnd }
+
+func (c endCloser) Close() error { return c.e.doClose() }
 
 func unhxAll(hs []string) [][]byte {
 	out := make([][]byte, len(hs))
@@ -120,15 +147,27 @@ var gatedHangs int32
 func runGated(c *caseIn, out *caseOut) {
 	up, down := unhxAll(c.Up), unhxAll(c.Down)
 	gU, gD := newGate(), newGate() // upload: local.Read + remote.Write ; download: remote.Read + local.Write
-	local := &gatedLocal{gatedEnd{rg: gU, wg: gD, src: up, eofl: c.UpEofl}}
+	local := &gatedEnd{rg: gU, wg: gD, src: up, eofl: c.UpEofl}
+	var localConn io.ReadWriter
+	switch c.Shape {
+	case "rw":
+		localConn = gatedLocalRW{local}
+	case "cw":
+		localConn = gatedLocalCW{local}
+	default:
+		localConn = gatedLocalRWC{local}
+	}
 	remote := &gatedRemote{gatedEnd: gatedEnd{rg: gD, wg: gU, src: down, eofl: c.DownEofl}, cw: make(chan struct{})}
-	cfg := &session.BidirectionalForwardConfig{TunnelID: "gated", LogPrefix: "gated", LocalConn: local, RemoteConn: remote}
+	cfg := &session.BidirectionalForwardConfig{TunnelID: "gated", LogPrefix: "gated", LocalConn: localConn, RemoteConn: remote}
+	if c.UseCloser {
+		cfg.LocalConnCloser = endCloser{local}
+	}
 	var sent, recv atomic.Int64
 	if c.Counters {
 		cfg.BytesSentCounter, cfg.BytesReceivedCounter = &sent, &recv
 	}
 	fdone := make(chan struct{})
-	go func() { session.VerifRunBidirectionalForward(cfg); close(fdone) }()
+	go func() { forwardGuarded(out, cfg); close(fdone) }()
 
 	// how many gated calls each direction will make in total: per chunk one Read + one Write, plus the EOF Read
 	calls := [2]int{0, 0}
@@ -219,8 +258,8 @@ func runGated(c *caseIn, out *caseOut) {
 	midUp, midDown := unhx(out.UpMid), unhx(out.DownMid)
 	switch {
 	case !bytes.Equal(gotUp, wantUp):
-		out.fail("forwarder-duplex-content", "gated schedule %v (then the alternating drain 0,1,0,1,...): upload direction delivered %q..., its source was %q... (first difference at byte %d of %d; other direction's source starts %q)",
-			headInts(c.Sched), head(gotUp), head(wantUp), firstDiff(gotUp, wantUp), len(wantUp), head(wantDown))
+		out.fail("forwarder-duplex-content", "gated schedule %v (then the alternating drain 0,1,0,1,...): upload direction delivered %q..., its source was %q... (first difference at byte %d of %d; other direction's source starts %q; LocalConn shape %q, LocalConnCloser=%v, events on the local end %v)",
+			headInts(c.Sched), head(gotUp), head(wantUp), firstDiff(gotUp, wantUp), len(wantUp), head(wantDown), c.Shape, c.UseCloser, local.events)
 	case !bytes.Equal(gotDown, wantDown):
 		out.fail("forwarder-duplex-content", "gated schedule %v (then the alternating drain 0,1,0,1,...): download direction delivered %q..., its source was %q... (first difference at byte %d of %d)",
 			headInts(c.Sched), head(gotDown), head(wantDown), firstDiff(gotDown, wantDown), len(wantDown))
@@ -328,8 +367,8 @@ func runDuplex(c *caseIn, out *caseOut) {
 		cfgB.BytesSentCounter, cfgB.BytesReceivedCounter = &sentB, &recvB
 	}
 	fdone := make(chan struct{}, 2)
-	go func() { session.VerifRunBidirectionalForward(cfgA); fdone <- struct{}{} }()
-	go func() { session.VerifRunBidirectionalForward(cfgB); fdone <- struct{}{} }()
+	go func() { forwardGuarded(out, cfgA); fdone <- struct{}{} }()
+	go func() { forwardGuarded(out, cfgB); fdone <- struct{}{} }()
 
 	start := make(chan struct{})     // both writers start together
 	firstW := make(chan struct{}, 2) // a writer has completed its first Write
@@ -492,7 +531,7 @@ func runFwdCut(c *caseIn, out *caseOut) {
 		pdone <- res{got, err}
 	}()
 	fdone := make(chan struct{})
-	go func() { session.VerifRunBidirectionalForward(cfg); close(fdone) }()
+	go func() { forwardGuarded(out, cfg); close(fdone) }()
 	var pr res
 	hung := false
 	select {
@@ -530,5 +569,187 @@ func runFwdCut(c *caseIn, out *caseOut) {
 	if c.Counters && (sent.Load() != int64(len(data)) || recv.Load() != int64(len(wantDown))) {
 		out.fail("forwarder-counters", "traffic counters: sent=%d received=%d, but %d bytes were read from the local side and %d written to it (eof with last chunk=%v)",
 			sent.Load(), recv.Load(), len(data), len(wantDown), c.UpEofl)
+	}
+}
+
+// ---------------------------------------------------------------------------------------------
+// order of half-closes x shape of the local connection
+// ---------------------------------------------------------------------------------------------
+
+// what the forwarder is allowed to see of its LocalConn
+type shapeRW struct{ c appConn }
+type shapeRWC struct{ c appConn }
+
+func (s shapeRW) Read(p []byte) (int, error)   { return s.c.Read(p) }
+func (s shapeRW) Write(p []byte) (int, error)  { return s.c.Write(p) }
+func (s shapeRWC) Read(p []byte) (int, error)  { return s.c.Read(p) }
+func (s shapeRWC) Write(p []byte) (int, error) { return s.c.Write(p) }
+func (s shapeRWC) Close() error                { return s.c.Close() }
+
+// eofSignal wraps the forwarder's RemoteConn (a real FrameStream): same method set (Read/Write/Close/CloseWrite);
+// closes `ended` when a Read reports the end of the download direction
+type eofSignal struct {
+	fs    *crossnode.FrameStream
+	once  sync.Once
+	ended chan struct{}
+}
+
+func (e *eofSignal) Read(p []byte) (int, error) {
+	n, err := e.fs.Read(p)
+	if err != nil {
+		e.once.Do(func() { close(e.ended) })
+	}
+	return n, err
+}
+func (e *eofSignal) Write(p []byte) (int, error) { return e.fs.Write(p) }
+func (e *eofSignal) Close() error                { return e.fs.Close() }
+func (e *eofSignal) CloseWrite() error           { return e.fs.CloseWrite() }
+
+// runHalfClose: app <-local-> real forwarder <== real FrameStream over loopback TCP ==> peer (a real FrameStream driven by
+// the harness).  order "peer-first": the peer greets and half-closes (EOF frame); only after the forwarder's download
+// direction has seen that does the local application upload its payload and close ITS side.  order "local-first": the
+// application uploads and half-closes first, then the peer answers and closes.  Predicate: every byte the local side
+// wrote before its own close reaches the peer (and the peer's bytes reach the application), whatever the order.
+func runHalfClose(c *caseIn, out *caseOut) {
+	upData, downData := pattern(c.UpLen, uint32(c.Seed)), pattern(c.DownLen, uint32(c.Seed)+4242)
+	idStr := "halfclose-tunnel"
+	id, err := crossnode.TunnelIDFromString(idStr)
+	hmust(err)
+	xa, xb := tcpPair()
+	var app, inner appConn
+	if c.Local == "pipe" {
+		a, b := newHalfPipePair()
+		app, inner = a, b
+	} else {
+		a, b := tcpPairLinger(false)
+		app, inner = a, b
+	}
+	var localConn io.ReadWriter
+	switch c.Shape {
+	case "rw":
+		localConn = shapeRW{inner}
+	case "rwc":
+		localConn = shapeRWC{inner}
+	default:
+		localConn = inner
+	}
+	remote := &eofSignal{fs: crossnode.NewFrameStream(crossnode.NewConn(context.Background(), "B", xa, nil), id), ended: make(chan struct{})}
+	cfg := &session.BidirectionalForwardConfig{TunnelID: idStr, LogPrefix: "hc", LocalConn: localConn, RemoteConn: remote}
+	if c.UseCloser {
+		cfg.LocalConnCloser = inner
+	}
+	var sent, recv atomic.Int64
+	if c.Counters {
+		cfg.BytesSentCounter, cfg.BytesReceivedCounter = &sent, &recv
+	}
+	peer := crossnode.NewFrameStream(crossnode.NewConn(context.Background(), "A", xb, nil), id)
+	fdone := make(chan struct{})
+	go func() { forwardGuarded(out, cfg); close(fdone) }()
+
+	type res struct {
+		b   []byte
+		err error
+	}
+	writeAll := func(w io.Writer, data []byte) error {
+		for len(data) > 0 {
+			k := len(data)
+			if k > 20000 {
+				k = 20000
+			}
+			if _, err := w.Write(data[:k]); err != nil {
+				return err
+			}
+			data = data[k:]
+		}
+		return nil
+	}
+	peerGot, appGot := make(chan res, 1), make(chan res, 1)
+	var appWriteErr error
+	done := make(chan struct{})
+	go func() {
+		defer close(done)
+		if c.Order == "peer-first" {
+			go func() { b, err := io.ReadAll(peer); peerGot <- res{b, err} }()
+			// peer: greeting, then half-close
+			if err := writeAll(peer, downData); err != nil {
+				out.fail("forwarder-half-close-order", "peer could not write its greeting: %v", err)
+				return
+			}
+			hmust(peer.CloseWrite())
+			// application: receives the whole greeting ...
+			got := make([]byte, len(downData))
+			_, err := io.ReadFull(app, got)
+			appGot <- res{got, err}
+			// ... and uploads only after the forwarder's download direction has ended (plus a settle time for whatever the
+			// forwarder does at that moment; the delay only affects what a broken forwarder gets the chance to break)
+			select {
+			case <-remote.ended:
+			case <-time.After(10 * time.Second):
+			}
+			time.Sleep(40 * time.Millisecond)
+			appWriteErr = writeAll(app, upData)
+			app.CloseWrite()
+		} else {
+			go func() { b, err := io.ReadAll(peer); peerGot <- res{b, err} }()
+			appWriteErr = writeAll(app, upData)
+			app.CloseWrite()
+			pr := <-peerGot
+			peerGot <- pr
+			// the peer answers only after it has seen the application's end-of-stream, then closes
+			if err := writeAll(peer, downData); err != nil {
+				out.fail("forwarder-half-close-order", "peer could not write its answer after the local half-close: %v", err)
+				return
+			}
+			hmust(peer.Close())
+			got := make([]byte, len(downData))
+			_, err := io.ReadFull(app, got)
+			appGot <- res{got, err}
+		}
+	}()
+	hung := false
+	select {
+	case <-done:
+	case <-time.After(20 * time.Second):
+		hung = true
+	}
+	var pr, ar res
+	if !hung {
+		select {
+		case pr = <-peerGot:
+		case <-time.After(15 * time.Second):
+			hung = true
+		}
+	}
+	if !hung {
+		select {
+		case ar = <-appGot:
+		default:
+		}
+		select {
+		case <-fdone:
+		case <-time.After(15 * time.Second):
+			hung = true
+		}
+	}
+	xa.Close()
+	xb.Close()
+	app.Close()
+	inner.Close()
+	desc := fmt.Sprintf("order=%s local=%s shape=%s LocalConnCloser=%v counters=%v up=%d down=%d", c.Order, c.Local, c.Shape, c.UseCloser, c.Counters, c.UpLen, c.DownLen)
+	if hung {
+		out.fail("forwarder-hang", "%s: application, peer or forwarder did not finish", desc)
+		return
+	}
+	out.WireLen = c.UpLen + c.DownLen
+	if pr.err != nil || !bytes.Equal(pr.b, upData) {
+		out.fail("forwarder-half-close-order", "%s: the local side wrote %d bytes before its own close (write error: %v); the peer FrameStream received %d bytes before end-of-stream (err=%v, first difference at byte %d)",
+			desc, len(upData), appWriteErr, len(pr.b), pr.err, firstDiff(pr.b, upData))
+	}
+	if ar.err != nil || !bytes.Equal(ar.b, downData) {
+		out.fail("forwarder-half-close-order", "%s: the peer wrote %d bytes; the local application received %d (err=%v, first difference at byte %d)",
+			desc, len(downData), len(ar.b), ar.err, firstDiff(ar.b, downData))
+	}
+	if c.Counters && (sent.Load() != int64(len(upData)) || recv.Load() != int64(len(downData))) {
+		out.fail("forwarder-counters", "%s: traffic counters sent=%d received=%d", desc, sent.Load(), recv.Load())
 	}
 }
